@@ -19,6 +19,7 @@ var genShards = ir.Callee{Pkg: "common/sharding", Recv: "", Name: "GenerateShard
 func checkC18(c *chk.Ctx) {
 	h := newH(c)
 	c.Decided = []string{
+		"R18m a client that cannot take an assignment update is cut off (it reloads the full map) rather than skipped",
 		"R18a the shard id generator only moves forward, by exactly the number of ids handed to GenerateShards from that generator value; shard ids in the status come from GenerateShards",
 		"R18b a shard's hash range is only written when the shard is created (or cloned)",
 		"R18c producers map Min->MinHashInclusive and Max->MaxHashInclusive, the client maps them to MinInclusive/MaxInclusive, and both client predicates (membership, overlap) agree with the inclusive-range truth table for every ordering of their operands; every non-deleting shard is published",
@@ -44,6 +45,7 @@ func checkC18(c *chk.Ctx) {
 	ruleR18i(h)
 	ruleR18j(h)
 	ruleClientRequestsCarryShard(h, "R18k")
+	ruleUndeliveredAssignmentCutsClient(h, "R18m")
 }
 
 func ruleR18a(h *H) {
